@@ -264,6 +264,7 @@ func (in *Interp) runPath(fn *ssa.Function, item workItem, snap *snapshot) (rec 
 	in.observes = nil
 	in.ckEpoch = 0
 	in.permute = false
+	in.permMode = 0
 	in.unwind = 10000
 	in.maxSteps = 8_000_000
 	in.maxDepth = 3000
